@@ -124,6 +124,7 @@ type model struct {
 	anyClose   bool
 	tainted    bool
 	heldList   []int // held handle k -> instance id
+	heldNames  []string
 	entry      []bool // two runtimes sharing a cache: is the slot's shared engine entry present?
 }
 
@@ -153,6 +154,7 @@ func (m *model) clone() *model {
 		c.inst[i] = &ci
 	}
 	c.heldList = append([]int(nil), m.heldList...)
+	c.heldNames = append([]string(nil), m.heldNames...)
 	c.entry = append([]bool(nil), m.entry...)
 	return &c
 }
@@ -172,7 +174,13 @@ func (m *model) importSources(id int) []int {
 		}
 	}
 	add(s.ImpFunc)
-	add(s.ImpMem)
+	// an imported memory keeps its ORIGINAL owner alive (MemoryInstance.ownerModuleEngine), not a re-exporting intermediary
+	if ms := s.ImpMem; ms >= 0 {
+		for m.h.Mods[ms].ImpMem >= 0 {
+			ms = m.h.Mods[ms].ImpMem
+		}
+		add(ms)
+	}
 	add(s.ImpTable) // table keeps all involved instances alive (both directions, see tableGroup)
 	if m.h.Compiler {
 		add(s.ImpGlobal) // GlobalInstance.Me (wazevo owns globals); the interpreter keeps only the GlobalInstance
@@ -421,6 +429,12 @@ func (g *gen) next(i, target int) (Op, bool) {
 			return Op{Kind: "compile", RT: rt, Slot: slot}, true
 		}
 		g.slotsDone[rt]++
+		if j := spec.ImpGlobal; j >= 0 && m.named[rt][j] >= 0 && r.Chance(1, 2) {
+			// the exporter of an imported funcref global: close, drop, collect, then use the global
+			a := m.named[rt][j]
+			g.agenda = append(g.agenda, Op{Kind: "closemod", Inst: a}, Op{Kind: "drop", Inst: a}, Op{Kind: "gc"},
+				Op{Kind: "call", Inst: len(m.inst), Name: "ig_call"})
+		}
 		return Op{Kind: "inst", RT: rt, Slot: slot, Inst: len(m.inst), Name: slotName(slot)}, true
 	}
 	// 2. agenda follow-ups
@@ -713,6 +727,7 @@ func (g *gen) genCall(withAct bool) (Op, bool) {
 func (g *gen) genSubs(entry int) []Op {
 	r, m := g.r, g.m
 	var subs []Op
+	droppedHere := map[int]bool{}
 	n := 1 + r.Intn(4)
 	rt := m.inst[entry].rt
 	for k := 0; k < n; k++ {
@@ -722,7 +737,7 @@ func (g *gen) genSubs(entry int) []Op {
 			if r.Bool() {
 				var same []int
 				for _, in := range m.inst {
-					if in.rt == rt && in.ref {
+					if in.rt == rt && in.ref && !in.absent && !droppedHere[in.id] {
 						same = append(same, in.id)
 					}
 				}
@@ -730,10 +745,11 @@ func (g *gen) genSubs(entry int) []Op {
 					id = pick(r, same)
 				}
 			}
-			if m.inst[id].ref {
+			if m.inst[id].ref && !droppedHere[id] {
 				subs = append(subs, Op{Kind: "closemod", Inst: id})
 				if r.Chance(1, 2) {
 					subs = append(subs, Op{Kind: "drop", Inst: id})
+					droppedHere[id] = true
 				}
 			}
 		case w < 9:
@@ -761,7 +777,7 @@ func (g *gen) genSubs(entry int) []Op {
 		default: // re-entrant observation call
 			var same []int
 			for _, in := range m.inst {
-				if in.rt == rt && in.ref {
+				if in.rt == rt && in.ref && !in.absent && !droppedHere[in.id] {
 					same = append(same, in.id)
 				}
 			}
@@ -980,7 +996,10 @@ func (g *gen) annotateAndApply(m *model, op *Op) {
 		s := m.spec(id)
 		name := op.Name
 		if op.Kind == "callheld" {
-			name = "" // resolved below from heldNames
+			name = "" // only pt_call(0) dereferences anything
+			if op.N < len(m.heldNames) && m.heldNames[op.N] == "pt_call" {
+				name = "pt_call" // Args are empty: index 0
+			}
 			uacHeld := m.isClosed(id) || !m.inst[id].ref
 			if uacHeld {
 				uac("held-function-of-closed-or-dropped-instance")
@@ -1009,6 +1028,7 @@ func (g *gen) annotateAndApply(m *model, op *Op) {
 				sub := &op.Sub[i]
 				if sub.Kind == "call" {
 					sub.Observe = true
+					sub.Mutates = sub.Name == "xg_call"
 					if m.isClosed(sub.Inst) {
 						uac("host-call-on-closed-instance")
 						sub.EntryCl, sub.ClosedBefore = true, true
@@ -1061,11 +1081,10 @@ func (g *gen) annotateAndApply(m *model, op *Op) {
 			if s.ImpMem >= 0 {
 				imported("imported-memory-of-closed-instance", s.ImpMem)
 			}
-			op.Mutates = true
+			op.Mutates = name == "mem_grow" // mem_rw reads back what it wrote itself
 		case "gi_set":
 			op.Mutates = true
-		case "do_act":
-			op.Mutates = true // writes mem[0]
+		case "do_act": // mem[0] is written before host.act and only read back in the same call: no lasting state
 			applySubs(id)
 			if len(op.Sub) > 0 && op.EntryCl {
 				uac("in-flight:entry-module-closed")
@@ -1077,7 +1096,6 @@ func (g *gen) annotateAndApply(m *model, op *Op) {
 				imported("imported-function-of-closed-instance", s.ImpFunc)
 			}
 		case "chain":
-			op.Mutates = true
 			j := m.named[m.inst[id].rt][s.ImpFunc]
 			applySubs(id)
 			if len(op.Sub) > 0 && op.EntryCl {
@@ -1097,7 +1115,6 @@ func (g *gen) annotateAndApply(m *model, op *Op) {
 				}
 			}
 		case "pt_call2":
-			op.Mutates = true
 			ri, ok := m.slotRef(id, "pt", arg(0))
 			if ok && ri.which == 3 && ri.prod >= 0 {
 				p := ri.prod
@@ -1117,9 +1134,6 @@ func (g *gen) annotateAndApply(m *model, op *Op) {
 			} else if ok {
 				funcrefUse(ri, id) // type mismatch or null: record is still read
 			}
-		}
-		if op.Kind == "callheld" {
-			// held handles are f0 / pt_call(0): pt_call(0) reads the instance's own element
 		}
 		op.RelClose = m.relatedClosed(id, used)
 	case "lookup":
@@ -1151,10 +1165,66 @@ func (g *gen) annotateAndApply(m *model, op *Op) {
 	case "hold":
 		m.inst[op.Inst].held++
 		m.heldList = append(m.heldList, op.Inst)
+		m.heldNames = append(m.heldNames, op.Name)
 	default:
 		m.applyLifecycle(op)
 	}
 	if len(op.Stale) > 0 {
 		m.tainted = true
 	}
+}
+
+// ManualHistory builds the minimal hand-written history for one funcref
+// channel (reproducers of the known defect; also used by replay).
+func ManualHistory(channel string, compiler bool) *History {
+	h := &History{Seed: 1, Compiler: compiler, Small: true}
+	a := ModSpec{K: 1, ImpFunc: -1, ImpTable: -1, ImpGlobal: -1, ImpMem: -1}
+	b := ModSpec{K: 2, ImpFunc: -1, ImpTable: -1, ImpGlobal: -1, ImpMem: -1}
+	var pass, use Op
+	switch channel {
+	case "private-table":
+		pass = Op{Kind: "passref", From: 0, Inst: 1, Which: 0, Channel: "pt_set", Idx: 2}
+		use = Op{Kind: "call", Inst: 1, Name: "pt_call", Args: []uint64{2}}
+	case "global":
+		pass = Op{Kind: "passref", From: 0, Inst: 1, Which: 0, Channel: "fg_set"}
+		use = Op{Kind: "call", Inst: 1, Name: "fg_call"}
+	case "table-grow":
+		pass = Op{Kind: "passref", From: 0, Inst: 1, Which: 0, Channel: "pt_grow", N: 1}
+		use = Op{Kind: "call", Inst: 1, Name: "pt_call", Args: []uint64{ptMin}}
+	case "shared-table": // B owns and exports the table, A is not involved in it
+		b.ExportTable = true
+		pass = Op{Kind: "passref", From: 0, Inst: 1, Which: 0, Channel: "st_set", Idx: 2}
+		use = Op{Kind: "call", Inst: 1, Name: "st_call", Args: []uint64{2}}
+	case "imported-global":
+		b.ImpGlobal = 0
+		use = Op{Kind: "call", Inst: 1, Name: "ig_call"}
+	case "lookup":
+		pass = Op{Kind: "passref", From: 0, Inst: 1, Which: 0, Channel: "pt_set", Idx: 2}
+		use = Op{Kind: "lookup", Inst: 1, N: 0, Idx: 2}
+	case "in-flight":
+		pass = Op{Kind: "passref", From: 0, Inst: 1, Which: 3, Channel: "pt_set", Idx: 2}
+		use = Op{Kind: "call", Inst: 1, Name: "pt_call2", Args: []uint64{2, 5, 0},
+			Sub: []Op{{Kind: "closemod", Inst: 0}, {Kind: "closecomp", RT: 0, Slot: 0}, {Kind: "drop", Inst: 0}, {Kind: "dropcomp", RT: 0, Slot: 0}, {Kind: "gc"}}}
+	default:
+		return nil
+	}
+	h.Mods = []ModSpec{a, b}
+	steps := []Op{{Kind: "compile", Slot: 0}, {Kind: "inst", Slot: 0, Inst: 0, Name: "m0"}, {Kind: "compile", Slot: 1}, {Kind: "inst", Slot: 1, Inst: 1, Name: "m1"}}
+	if pass.Kind != "" {
+		steps = append(steps, pass)
+	}
+	steps = append(steps, use) // while A is alive
+	if channel != "in-flight" {
+		steps = append(steps, Op{Kind: "closemod", Inst: 0}, Op{Kind: "closecomp", Slot: 0}, Op{Kind: "drop", Inst: 0}, Op{Kind: "dropcomp", Slot: 0},
+			Op{Kind: "gc"}, Op{Kind: "churn", N: 300}, use)
+	}
+	g := &gen{h: h, m: newModel(h)}
+	for _, op := range steps {
+		if op.Kind == "call" && len(op.Sub) > 0 {
+			op.Sub = append([]Op(nil), op.Sub...)
+		}
+		g.emit(op)
+	}
+	h.NInst = len(g.m.inst)
+	return h
 }
